@@ -29,6 +29,42 @@ type c14Case struct {
 	Files         [][]c14Item `json:"files"` // file i = hint of data chunk Chunks[i]; items in set order (duplicates allowed: last wins)
 	Chunks        []int       `json:"chunks"`
 	Absent        []c14Item   `json:"absent"` // extra lookups (hash,key) expected absent unless present by chance
+	// Big: one more source file (data chunk 990) with N items described compactly (expanded deterministically): hint
+	// files with thousands of index entries (the index is kept in rows of 4096 entries)
+	Big *c14Big `json:"big,omitempty"`
+}
+
+type c14Big struct {
+	N      int    `json:"n"`
+	KeyLen int    `json:"keylen"`
+	Seed   uint64 `json:"seed"`
+	Dense  bool   `json:"dense"` // consecutive hashes instead of pseudo-random ones
+	Pairs  int    `json:"pairs"` // every Pairs-th item shares its hash with its predecessor (0 = never)
+}
+
+func (b *c14Big) expand() []c14Item {
+	items := make([]c14Item, 0, b.N)
+	x := b.Seed | 1
+	var prev uint64
+	for i := 0; i < b.N; i++ {
+		x ^= x << 13
+		x ^= x >> 7
+		x ^= x << 17
+		h := x
+		if b.Dense {
+			h = b.Seed + uint64(i)
+		}
+		if b.Pairs > 0 && i > 0 && i%b.Pairs == 0 {
+			h = prev
+		}
+		prev = h
+		key := fmt.Sprintf("big%07d", i)
+		for len(key) < b.KeyLen {
+			key += "x"
+		}
+		items = append(items, c14Item{Hash: h, Key: key, Ver: int32(i%7 + 1), Vhash: uint16(i), Offset: uint32(i) << 8, RecSz: 256})
+	}
+	return items
 }
 
 type hk struct {
@@ -63,11 +99,16 @@ func c14Run(c *c14Case) (err error) {
 	}
 	var models []*fileModel
 	var readers []*hintFileReader
-	for fi, items := range c.Files {
+	files, chunks := c.Files, c.Chunks
+	if c.Big != nil {
+		files = append(append([][]c14Item{}, c.Files...), c.Big.expand())
+		chunks = append(append([]int{}, c.Chunks...), 990)
+	}
+	for fi, items := range files {
 		if len(items) == 0 {
 			continue // Dump is only called for non-empty buffers
 		}
-		fm := &fileModel{items: map[hk]c14Item{}, chunk: c.Chunks[fi]}
+		fm := &fileModel{items: map[hk]c14Item{}, chunk: chunks[fi]}
 		buf := NewHintBuffer()
 		for _, it := range items {
 			hi := newHintItem(it.Hash, it.Ver, it.Vhash, Position{0, it.Offset}, it.Key)
@@ -130,6 +171,12 @@ func c14Run(c *c14Case) (err error) {
 			return fmt.Errorf("file %d: loaded index meta datasize %d numKey %d, want %d %d", fi, loaded.datasize, loaded.numKey, fm.datasize, len(fm.items))
 		}
 		for _, ix := range []*hintFileIndex{idx, loaded} {
+			// the sparse index itself: ascending hashes, strictly ascending offsets inside the item section
+			for i, e := range ix.index {
+				if e.offset < HINTFILE_HEAD_SIZE || (i > 0 && (e.offset <= ix.index[i-1].offset || e.keyhash < ix.index[i-1].keyhash)) {
+					return fmt.Errorf("file %d: index entry %d of %d is {hash %016x, offset %d} after {hash %016x, offset %d}: the index is not ascending", fi, i, len(ix.index), e.keyhash, e.offset, ix.index[max0(i-1)].keyhash, ix.index[max0(i-1)].offset)
+				}
+			}
 			for key, want := range fm.items {
 				it, err := ix.get(key.h, key.k)
 				if err != nil {
@@ -431,6 +478,64 @@ func TestVerif_C14_HintFiles(t *testing.T) {
 	})
 }
 
+func max0(i int) int {
+	if i < 0 {
+		return 0
+	}
+	return i
+}
+
+// Big index unit: one source file with thousands of items under a tiny index interval (every item gets an index
+// entry), sizes around the multiples of the 4096-entry index rows, optionally merged with small generated files.
+func TestVerif_C14_BigIndex(t *testing.T) {
+	st := verifkit.StatsFor("TestVerif_C14_BigIndex")
+	rapid.Check(t, func(t *rapid.T) {
+		c := &c14Case{}
+		if rapid.IntRange(0, 2).Draw(t, "withsmall") == 0 {
+			c = c14Gen(t)
+		}
+		c.IndexInterval = rapid.SampledFrom([]int64{32, 64, 279, 300}).Draw(t, "big_ii")
+		b := &c14Big{KeyLen: rapid.SampledFrom([]int{10, 10, 24, 60}).Draw(t, "keylen"), Seed: rapid.Uint64().Draw(t, "seed"),
+			Dense: rapid.Bool().Draw(t, "dense"), Pairs: rapid.SampledFrom([]int{0, 0, 2, 7, 500}).Draw(t, "pairs")}
+		switch rapid.IntRange(0, 5).Draw(t, "nclass") {
+		case 0:
+			b.N = 4096 + rapid.IntRange(-3, 3).Draw(t, "d")
+		case 1:
+			b.N = 8192 + rapid.IntRange(-3, 3).Draw(t, "d")
+		case 2:
+			b.N = 12288 + rapid.IntRange(-3, 3).Draw(t, "d")
+		default:
+			b.N = rapid.IntRange(3000, 14000).Draw(t, "n")
+		}
+		if b.Dense && b.Seed > ^uint64(0)-20000 {
+			b.Seed -= 20000
+		}
+		c.Big = b
+		// absent lookups inside the big file's hash range
+		big := b.expand()
+		for i := 0; i < 8; i++ {
+			a := big[rapid.IntRange(0, len(big)-1).Draw(t, "absidx")]
+			c.Absent = append(c.Absent, c14Item{Hash: a.Hash, Key: a.Key + "~other"}, c14Item{Hash: a.Hash + 1, Key: a.Key})
+		}
+		err := c14Run(c)
+		if err != nil && isInfra(err) {
+			t.Fatalf("%v", err)
+		}
+		labels := []string{fmt.Sprintf("index_rows=%d", b.N/4096+1)}
+		if b.N > 4096 {
+			labels = append(labels, "index>4096_entries")
+		}
+		if len(c.Files) > 0 {
+			labels = append(labels, "merged_with_small_files")
+		}
+		st.Case(labels, err == nil && b.N > 4096 && c.IndexInterval <= 279, canon(c), map[string]interface{}{"big": b, "ii": c.IndexInterval, "small_files": len(c.Files)})
+		if err != nil {
+			verifkit.Fail("C14", "TestVerif_C14_BigIndex", c, err.Error())
+			t.Fatalf("%v", err)
+		}
+	})
+}
+
 func firstItems(c *c14Case) []c14Item {
 	if len(c.Files) == 0 {
 		return nil
@@ -443,6 +548,13 @@ func firstItems(c *c14Case) []c14Item {
 }
 
 func init() {
+	replayers["TestVerif_C14_BigIndex"] = func(raw json.RawMessage) error {
+		c := &c14Case{}
+		if err := json.Unmarshal(raw, c); err != nil {
+			return err
+		}
+		return c14Run(c)
+	}
 	replayers["TestVerif_C14_HintFiles"] = func(raw json.RawMessage) error {
 		c := &c14Case{}
 		if err := json.Unmarshal(raw, c); err != nil {
